@@ -1,6 +1,6 @@
 (* Check.v — the correspondence check: the executable model is run on the states observed in the Go
    implementation (one snapshot after every step of Layout) and compared with the next observed state. *)
-From Autog Require Export Contracts CrossCount Wmedian Pipeline BK.
+From Autog Require Export Contracts CrossCount Wmedian Pipeline BK PipelineBK.
 From Coq Require Import NArith.
 Local Open Scope Q_scope.
 
@@ -197,18 +197,21 @@ Definition onode_eqb_e2e (nreal : nat) (a b : onode) : bool :=
   && Qeq_bool (on_x a) (on_x b) && Qeq_bool (on_y a) (on_y b) && Qeq_bool (on_w a) (on_w b) && Qeq_bool (on_h a) (on_h b).
 
 Definition check_e2e (c : tcase) : list nat :=
-  match o_p4 (c_opts c), o_p5 (c_opts c) with
-  | OtherPositioner, _ | _, OtherRouting => []          (* Brandes-Koepf / splines: not modelled functionally *)
-  | _, _ =>
-      match layout ident ieqb (c_opts c) (c_fixed c) (c_sizes c) (c_edges c) with
-      | Ok (ids, (ns, es, xs)) =>
-          (if list_eqb ieqb ids (c_ids c) then [] else [1601%nat])
-          ++ (if forall2b (onode_eqb_e2e (length ids)) ns (c_out_nodes c) then [] else [1602%nat])
-          ++ (if forall2b oedge_eqb es (c_out_edges c) then [] else [1603%nat])
-          ++ (if list_eqb Z.eqb xs (c_crossings c) then [] else [1604%nat])
-      | Err (ErrFuel k) => [1698%nat; (4000 + k)%nat]
-      | Err _ => [1699%nat]
-      end
+  let skip := match o_p4 (c_opts c), o_p5 (c_opts c) with
+              | _, OtherRouting => true                                   (* splines: not modelled functionally *)
+              | OtherPositioner, _ => negb (bk_modelled && (-2 <? c_bk c)%Z)
+              | _, _ => false
+              end in
+  if skip then [] else
+  (* [layout_x] is [layout] unless the positioner is Brandes-Koepf *)
+  match layout_x ident ieqb (c_bk c) (c_opts c) (c_fixed c) (c_sizes c) (c_edges c) with
+  | Ok (ids, (ns, es, xs)) =>
+      (if list_eqb ieqb ids (c_ids c) then [] else [1601%nat])
+      ++ (if forall2b (onode_eqb_e2e (length ids)) ns (c_out_nodes c) then [] else [1602%nat])
+      ++ (if forall2b oedge_eqb es (c_out_edges c) then [] else [1603%nat])
+      ++ (if list_eqb Z.eqb xs (c_crossings c) then [] else [1604%nat])
+  | Err (ErrFuel k) => [1698%nat; (4000 + k)%nat]
+  | Err _ => [1699%nat]
   end.
 
 Definition check_cases_deep (cs : list (nat * tcase)) : list (nat * list nat) :=
